@@ -34,7 +34,7 @@ CFG = {
                   "structure of schema vs rule along the value + leaf ranges) is emitted as bytes the validator accepts - one generic "
                   "proof. The value-INDEPENDENT form (refines s r) is kept as C03_full and is not provable for these schemas (lower "
                   "bounds are not expressible in the schema language).",
-    "theorems": ["C03_wellformed", "C03_canonical", "C03_canonical_ledger", "C03_sets", "C03_set_site", "C03_tables", "C03_bytes_of_tree", "C03_fuel_monotone", "C03_conforms", "C03_conforms_conway", "C03_mint_int64_refuted", "C03_conforms_partial", "C03_builder_no_zero_assets"],
+    "theorems": ["C03_wellformed", "C03_canonical", "C03_canonical_ledger", "C03_canonical_ledger_more", "C03_sets", "C03_set_site", "C03_tables", "C03_bytes_of_tree", "C03_fuel_monotone", "C03_conforms", "C03_conforms_conway", "C03_mint_int64_refuted", "C03_conforms_partial", "C03_builder_no_zero_assets"],
     "allowed_axioms": [],
     "compare": _compare,
     "nontrivial": _nontrivial,
@@ -56,7 +56,8 @@ CFG = {
     "assumptions": [
         "values built through non-validating constructors that the CDDL rejects are outside the quantifier (labels nv_*: tx-input / "
         "gov-action index > 65535, zero asset quantity / empty policy via Assets::insert / MultiAsset::insert, UnitInterval with zero "
-        "denominator or > 1, duplicate policy via Mint::insert); pre-Conway items (body key 6, certificates 5/6, parameter-update "
+        "denominator or > 1, a repeated key in a Vec-backed map via the appenders Mint::insert / Redeemers::add / PlutusMapValues - "
+        "duplicate map keys do not conform); pre-Conway items (body key 6, certificates 5/6, parameter-update "
         "keys 12-14) are not judged",
         "addresses in generated outputs are Shelley addresses (Byron carriers: C11); nesting depth of scripts/data/metadata <= 3 in the run "
         "(theorems: every depth)",
